@@ -22,6 +22,17 @@ from cutplace import _tools, errors, fields
 from cutplace._tools import generated_tokens
 
 
+def _rule_tokens(rule, location):
+    """
+    Tokens of ``rule``; a rule Python's tokenizer cannot process results in an
+    :py:exc:`cutplace.errors.InterfaceError`.
+    """
+    try:
+        return iter(list(generated_tokens(rule)))
+    except (tokenize.TokenError, SyntaxError) as error:
+        raise errors.InterfaceError("cannot split rule %r into words and symbols: %s" % (rule, error), location)
+
+
 class AbstractCheck(object):
     """
     Abstract check to be used as base class for other checks. The constructor should be called by
@@ -162,7 +173,7 @@ class IsUniqueCheck(AbstractCheck):
         self.reset()
 
         # Extract field names to check from rule.
-        toky = generated_tokens(rule)
+        toky = _rule_tokens(rule, self.location_of_rule)
         after_comma = True
         next_token = next(toky)
         unique_field_names = set()
@@ -225,7 +236,7 @@ class DistinctCountCheck(AbstractCheck):
     def __init__(self, description, rule, available_field_names, location=None):
         super().__init__(description, rule, available_field_names, location)
 
-        tokens = generated_tokens(rule)
+        tokens = _rule_tokens(rule, self.location_of_rule)
         first_token = next(tokens)
 
         # Obtain and validate field to count.
